@@ -523,12 +523,16 @@ impl BufferedFileWriter {
 
 impl WritableFile for BufferedFileWriter {
 	fn append(&mut self, data: &[u8]) -> Result<()> {
+		#[cfg(surrealkv_verif)]
+		crate::verif_fault::check("wal_append")?;
 		self.writer.write_all(data)?;
 		self.pending_sync = true;
 		Ok(())
 	}
 
 	fn flush(&mut self) -> Result<()> {
+		#[cfg(surrealkv_verif)]
+		crate::verif_fault::check("wal_flush")?;
 		self.writer.flush()?;
 		Ok(())
 	}
@@ -537,6 +541,8 @@ impl WritableFile for BufferedFileWriter {
 		if !self.pending_sync {
 			return Ok(());
 		}
+		#[cfg(surrealkv_verif)]
+		crate::verif_fault::check("wal_sync")?;
 		self.writer.flush()?;
 		self.writer.get_ref().sync_all()?;
 		self.pending_sync = false;
